@@ -13,6 +13,7 @@ CONSTANTS
   NoHoldTimer = FALSE
   AnswerNotification = FALSE
   StarveAccepted = FALSE
+  WithRemove = TRUE
 VIEW PView
 INVARIANT PTypeOK
 INVARIANT NoViolation
